@@ -96,6 +96,12 @@ def bad_field_classes():
         ("opt-nocopy-int", "int32", 'frugal:"2,default,i32,nocopy"'),
         ("opt-nocopy-twice", "string", 'frugal:"2,default,string,nocopy,nocopy"'),
         ("opt-nocopy-list", "[]string", 'frugal:"2,default,list<string>,nocopy"'),
+        ("slice-named-byte", "[]MyU8", 'frugal:"2,default,binary"'),
+        ("slice-named-byte-bare", "[]MyU8", 'frugal:"2,default"'),
+        ("map-val-named-bytes", "map[string][]MyU8", 'frugal:"2,default,map<string:binary>"'),
+        ("field-ptr-enum-default", "*Enum", 'frugal:"2,default,Enum"'),
+        ("field-ptr-enum-required", "*Enum", 'frugal:"2,required,Enum"'),
+        ("key-ptr-i32", "map[*int32]string", 'frugal:"2,default,map<i32:string>"'),
         ("thrift-bad-id", "int32", 'thrift:"name,x,default"'),
         ("thrift-bad-req", "int32", 'thrift:"name,2,sometimes"'),
     ]
